@@ -96,6 +96,23 @@ func GenC11Input(seed uint64, idx int, tier string) C11Case {
 		t := strings.Repeat(tails[r.Intn(len(tails))], r.Range(600, 4000))
 		return NewC11Case([]byte(h+t), "long-unread-tail", tier)
 	}
+	if idx < nSuite+28 {
+		// long flat chains: hundreds of terms, tens of thousands of steps, more
+		// parser state (positions, rule results) than any bounded table holds
+		terms := []string{"a == 1", "b != 2", "c in d", `e matches "^x"`, "f is empty", `"/g/h" == 3`, "not i == 4", "j.k == 5"}
+		n := r.Range(60, 300)
+		var b strings.Builder
+		for i := 0; i < n; i++ {
+			if i > 0 {
+				b.WriteString([]string{" and ", " or "}[r.Intn(2)])
+			}
+			b.WriteString(terms[r.Intn(len(terms))])
+		}
+		if r.Chance(0.3) {
+			b.WriteString([]string{" and", " )", " == ", " or ("}[r.Intn(4)])
+		}
+		return NewC11Case([]byte(b.String()), "long-chain", tier)
+	}
 	g := &ExprGen{R: r.Fork(), Uniq: ""}
 	root := SyntheticRoot(r)
 	e := g.Gen(root, r.Intn(2), r.Intn(3))
